@@ -104,6 +104,21 @@ def v3da879f : Fixes :=
   { emptyErr := true, assocOne := true, groupErr := true, greedyErr := true, modifiersErr := true,
     noRulesErr := true, dupNameErr := true, kindIdentErr := true, stopRefErr := true }
 
+/-- `S: Ta; AUG: Tb;` (N3: a rule named like the builder's own nonterminal) -/
+def fReserved : File := file [rule "S" [alt [rf "Ta"]], rule "AUG" [alt [rf "Tb"]]]
+
+/-- `S: Ta+ Tb;` with a terminal `Ta1: 'z'` (F5b: the terminal captures the sugar) -/
+def fTermCapture : File := file [rule "S" [alt [rp "Ta" .oneOrMore none, rf "Tb"]]]
+  [tA, tB, { name := nm "Ta1", recog := some (.str (nm "z")) }]
+
+/-- `S: X A1; A1: Tb; X: A+; A: Ta;` (F5b: the user rule is declared BEFORE the sugar use) -/
+def fF5bBefore : File := file [rule "S" [alt [rf "X", rf "A1"]], rule "A1" [alt [rf "Tb"]],
+  rule "X" [alt [rp "A" .oneOrMore none]], rule "A" [alt [rf "Ta"]]]
+
+/-- the variant of `/repo` after C09-fix-8 and C09-fix-9 (= `Front.repoVariant` when this was written):
+everything repaired except the separator in helper names (F5) and the integer literal (F9) -/
+def vFix9 : Fixes := { v3da879f with reservedErr := true, helperClashErr := true }
+
 def useOpt : Use := { base := nm "A", kind := .opt, sep := none }
 def useOne : Use := { base := nm "Ta", kind := .one, sep := none }
 def useOneSep : Use := { base := nm "Tb", kind := .one, sep := some (nm "Tc") }
